@@ -2015,7 +2015,9 @@ class Cache:
                     error = set(paths) - filenames
 
                     for full_path in error:
-                        if DBNAME in full_path:
+                        if dirpath == self._directory and op.basename(
+                            full_path
+                        ).startswith(DBNAME):
                             continue
 
                         message = 'unknown file: %s' % full_path
